@@ -74,6 +74,12 @@ def generate(tier, rng):
         px = rng.choice([0.1, 0.5, 0.9])
         cs = "".join("X" if rng.random() < px else "P" for _ in range(sum(1 for t in sc if t == "P") + 2))
         out.append(line(mx, vals, sc, cs))
+    # values larger than 64 KiB (a writer that releases or regrows large buffers has seams there): the returned length, the frames
+    bigv = bytes((i * 7 + 3) & 0xff for i in range(70000)).hex()
+    out.append(line(300000, ["01", bigv, "0203"], [], ""))
+    out.append(line(300000, [bigv, "05"], [4, 65536, "P", 100000, 2, "P", 100], "PP"))
+    out.append(line(300000, [bigv, bigv], [100000, "E", 100000], ""))
+    out.append(line(300000, ["07", bigv], [3, "P", 70010, 100000], "X"))
     return out
 
 def _kv(line, key):
